@@ -2870,6 +2870,9 @@ impl Node {
     /// The node tells us that it is forgetting a channel
     pub fn forget_channel(&self, channel_id: &ChannelId) -> Result<(), Status> {
         let mut stub_found = false;
+        // The tracker comes first in the lock order (as in setup_channel and the heartbeat);
+        // it is needed to persist the channel monitor's forget flag below.
+        let tracker = self.get_tracker();
         // The lock order is channels -> channel -> node_state, as in every channel request
         // (which runs under the channel lock and then takes the node state) and in
         // channel_balance / chaninfo.  Taking the node state first can deadlock with those.
@@ -2891,6 +2894,11 @@ impl Node {
                 ChannelSlot::Ready(chan) => {
                     info!("forget_channel {}", channel_id);
                     chan.forget()?;
+                    // The forget flag lives in the channel's chain monitor, which is stored
+                    // with the tracker: persist it now, not at the next block.
+                    self.persister
+                        .update_tracker(&self.get_id(), &tracker)
+                        .map_err(|_| internal_error("tracker persist failed"))?;
                 }
             };
             if channel_id.oid() > node_state.dbid_high_water_mark {
